@@ -74,3 +74,21 @@ Proof.
     destruct (q_func q); try exact I; try discriminate; rewrite ?ds, ?dt, ?dmin, ?dmax by assumption; try reflexivity.
     split; [reflexivity|]. destruct (q_quants q); reflexivity.
 Qed.
+
+(* Merge is associative and commutative with the new container as unit, on everything an observer can
+   see: both sides are described by the same values *)
+Lemma merge_monoid c a va na b vb nb d vd nd :
+  sdesc c a va na -> sdesc c b vb nb -> sdesc c d vd nd ->
+  sdesc c (merge_summ (merge_summ a b) d) (va ++ vb ++ vd) (na + nb + nd) /\
+  sdesc c (merge_summ a (merge_summ b d)) (va ++ vb ++ vd) (na + nb + nd) /\
+  sdesc c (merge_summ a b) (va ++ vb) (na + nb) /\ sdesc c (merge_summ b a) (va ++ vb) (na + nb) /\
+  sdesc c (merge_summ new_summ a) va na /\ sdesc c (merge_summ a new_summ) va na.
+Proof.
+  intros A B D. split; [|split; [|split; [|split; [|split]]]].
+  - rewrite app_assoc. apply sdesc_merge; [apply sdesc_merge|]; assumption.
+  - rewrite <- N.add_assoc. apply sdesc_merge; [|apply sdesc_merge]; assumption.
+  - apply sdesc_merge; assumption.
+  - rewrite (N.add_comm na nb). eapply sdesc_perm; [apply Permutation_app_comm|]. apply sdesc_merge; assumption.
+  - change va with ([] ++ va). change na with (0 + na)%N. apply sdesc_merge; [apply sdesc_new|assumption].
+  - rewrite <- (app_nil_r va), <- (N.add_0_r na). apply sdesc_merge; [assumption|apply sdesc_new].
+Qed.
